@@ -3,7 +3,7 @@
 import json, glob, sys
 rnd = int(sys.argv[1])
 rows = []
-for p in sorted(glob.glob("/verif/seeded/C??-m?/meta.json")):
+for p in sorted(glob.glob("/verif/seeded/C??-m*/meta.json")):
     m = json.load(open(p))
     if m.get("round", 1) != rnd:
         continue
